@@ -960,6 +960,9 @@ func runHistCase(idx int, dir, tier string, seed int64) *caseResult {
 					if ok && (ov == v || (ov-v < 1e-9 && v-ov < 1e-9)) {
 						continue
 					}
+					if ev := expValueOfKey(exp, key); ev != nil && ev.Lenient {
+						continue // the reference accepts a value as well as no value here (missing operand / empty quantile bucket)
+					}
 					differing = append(differing, fmt.Sprintf("%s: memory=%v %s=%v(present=%v)", key, v, style, ov, ok))
 					parts := strings.Split(key, "|")
 					var ts int64
@@ -970,6 +973,9 @@ func runHistCase(idx int, dir, tier string, seed int64) *caseResult {
 					}
 				}
 				for key := range other.canon[qi] {
+					if ev := expValueOfKey(exp, key); ev == nil || ev.Lenient {
+						continue // zero fill / lenient value
+					}
 					if _, ok := base.canon[qi][key]; !ok {
 						differing = append(differing, fmt.Sprintf("%s: only under %s", key, style))
 						firstLast = false
@@ -997,6 +1003,16 @@ func headStrings(s []string, n int) []string {
 		return s[:n]
 	}
 	return s
+}
+
+func expValueOfKey(exp *node.Expected, key string) *node.ExpValue {
+	parts := strings.Split(key, "|")
+	if len(parts) != 3 {
+		return nil
+	}
+	var ts int64
+	fmt.Sscan(parts[2], &ts)
+	return expValue(exp, parts[0], parts[1], ts)
 }
 
 func expValue(exp *node.Expected, group, item string, ts int64) *node.ExpValue {
